@@ -98,7 +98,9 @@ func (f *FuncFacts) callEvent(kind string, cc *ssa.CallCommon) *Event {
 	}
 	ev := &Event{Kind: kind, Name: name, Args: strings.Join(args, ",")}
 	if kind == "call" {
-		if callee := cc.StaticCallee(); callee != nil {
+		if isObserver(name) {
+			ev.Pure = true
+		} else if callee := cc.StaticCallee(); callee != nil {
 			ev.Pure = isPure(callee) || isNoiseCallee(callee.String())
 		} else if cc.IsInvoke() && isNoiseCallee("("+cc.Value.Type().String()+").") {
 			ev.Pure = true
